@@ -98,7 +98,7 @@ def check_config(ctx, spec, rsel, label):
 
     case = {"spec": spec, "runtime_select": rsel, "program": label}
     rt.reset_program()
-    warm = ctx.rng.random() < 0.25
+    warm = ctx.rng.random() < 0.25 if "force_warm" not in spec else bool(spec["force_warm"])
     try:
         built = build_program(spec, warm_inputs=({} if warm else None))
     except Exception as e:  # noqa: BLE001 - a configuration the API rejects is not a configuration
@@ -416,6 +416,12 @@ def directed_cases():
     # a mapping nested-graph node whose MAPPED parameter has a signature default inside (a default work list): the name
     # is optional outside, and leaving it out is accepted and runs
     inner_m = {"name": "batch", "nodes": [{"k": "fn", "name": "work", "params": [{"n": "item", "d": ["d0", "d1"]}, {"n": "tag"}], "outs": ["done"]}], "bind": {}}
+    # a nested-graph node that is USED between two rename batches, the second of which re-uses the name the first freed
+    # and hands the first's name on (a->t, then t->u and b->t): required / optional follow the parameters, not the names
+    for used in (True, False):
+        inner_r = {"name": "ren", "nodes": [{"k": "fn", "name": "f", "params": [{"n": "a"}, {"n": "b", "d": "def:b"}], "outs": ["r"]}], "bind": {}}
+        for hist in ([{"a": "t"}, {"t": "u", "b": "t"}], [{"a": "t"}, {"t": "b", "b": "t"}], [{"b": "t"}, {"t": "a", "a": "t"}]):
+            out.append((f"directed:renamed-again-after-use:{hist}:used={used}", {"name": "outer", "nodes": [{"k": "sub", "name": "ren", "prog": copy.deepcopy(inner_r), "rename_in": [dict(b) for b in hist]}], "bind": {}, "force_warm": used}, None))
     out.append(("directed:mapped-parameter-with-inner-default", {"name": "outer", "nodes": [{"k": "fn", "name": "pre", "params": [{"n": "raw"}], "outs": ["tag"]}, {"k": "sub", "name": "batch", "prog": inner_m, "map": {"over": ["item"], "mode": "zip", "err": "raise"}}], "bind": {}, "select": ["done"], "expect_selected": True}, None))
     out.append(("directed:two-data-cycles-coupled-by-a-gate:reordered", {"name": "twocyc", "nodes": [copy.deepcopy(two[2]), copy.deepcopy(two[1]), copy.deepcopy(two[0])], "bind": {}, "int_inputs": True}, None))
     return out
